@@ -38,19 +38,11 @@ Proof.
 Qed.
 Print Assumptions C10_strict_generic.
 
-(* concrete: unconditional for the 16 suites whose key-exchange group is P-256/384/521 or Curve25519 *)
-Theorem C10_strict_16_suites : all_suites_ke_not_ristretto (fun _ _ _ _ CS => all_decoders_strict CS).
+(* concrete: all 20 suites, unconditionally (ristretto255 elements are represented by their canonical
+   encoding in the model, NIST points are canonical by construction of the repaired decoder) *)
+Theorem C10_strict_20_suites : all_suites (fun _ _ _ _ CS => all_decoders_strict CS).
 Proof.
-  pose proof codec_laws_16 as H. unfold all_suites_ke_not_ristretto in *.
-  repeat match goal with H : _ /\ _ |- _ => destruct H end.
-  repeat split; apply C10_strict_generic; assumption.
-Qed.
-Print Assumptions C10_strict_16_suites.
-
-(* all 20, given that the ristretto255 decoder is canonical (RFC 9496; a hypothesis, DESIGN.md 6) *)
-Theorem C10_strict_20_suites : ristretto_canonical -> all_suites (fun _ _ _ _ CS => all_decoders_strict CS).
-Proof.
-  intros R. pose proof (codec_laws_20 R) as H. unfold all_suites in *.
+  pose proof codec_laws_20 as H. unfold all_suites in *.
   repeat match goal with H : _ /\ _ |- _ => destruct H end.
   repeat split; apply C10_strict_generic; assumption.
 Qed.
